@@ -19,7 +19,7 @@ def apalache_inductive(chk):
         for what, args in (("base case", ["--init=Init", "--inv=Valid", "--length=0"]), ("inductive step from any valid permutation", ["--init=IndInit", "--inv=Valid", "--length=1"])):
             t0 = time.time()
             try:
-                r = subprocess.run([exe, "check", "--cinit=CInit", "--out-dir=" + out] + args + [os.path.join(here, "spec", "YkPermA.tla")], stdout=subprocess.PIPE, stderr=subprocess.STDOUT,
+                r = subprocess.run([exe, "check", "--cinit=CInit", "--out-dir=" + out] + args + [os.path.join(here, "spec", "apalache", "YkPermA.tla")], stdout=subprocess.PIPE, stderr=subprocess.STDOUT,
                                    text=True, errors="replace", timeout=600, cwd=out)
             except subprocess.TimeoutExpired:
                 chk.notes.append("apalache %s of YkPermA timed out (undecided, supplementary)" % what)
